@@ -450,6 +450,13 @@ pub fn one_case(d: &mut Draw, fast: &[Config], cc: &[Config]) -> Outcome {
     let mut cfg = GenCfg::default();
     cfg.display = d.chance(1, 4);
     cfg.unguarded_per_mille = 20;
+    if crate::c18::quick() {
+        crate::c18::core_dialect(&mut cfg);
+        cfg.unguarded_per_mille = 0;
+        cfg.partial_assign = false;
+        cfg.arrays = false;
+        cfg.display = false;
+    }
     if crate::c18::BIG_TIER {
         for k in findings::NON_DEFAULT {
             cfg.avoid.insert(k.to_string());
@@ -734,6 +741,10 @@ fn discover(o: Outcome) -> Outcome {
 
 pub fn run(ctx: &Ctx) {
     let (fast, cc) = engine_configs();
+    crate::c18::QUICK.store(ctx.is_quick(), std::sync::atomic::Ordering::Relaxed);
+    if ctx.is_quick() {
+        ctx.assume("QUICK tier = core dialect: widths 1..64, no $signed/$unsigned, no `as` casts, no '0/'1, no switch/case expressions, no run-time part selects, no `**`, no part-select / field targets, no unpacked arrays, no unguarded divisors or indices, no $display, plus every known-defect shape of vdesign::findings replaced (counted as `excluded:*`); the wide dialect is searched by the thorough tier");
+    }
     ctx.note("engines", json!(fast.iter().chain(cc.iter()).map(config_label).collect::<Vec<_>>()));
     ctx.run_payloads("recorded", |p| {
         std::thread::scope(|s| {
@@ -745,7 +756,7 @@ pub fn run(ctx: &Ctx) {
                 .unwrap_or_else(|_| Outcome::fail("panic:recorded", "the replay panicked", p.clone()))
         })
     });
-    let n = std::env::var("C02_CASES").ok().and_then(|s| s.parse::<usize>().ok()).unwrap_or(ctx.scale(if crate::c18::BIG_TIER { 960 } else { 320 }, 30_000));
+    let n = std::env::var("C02_CASES").ok().and_then(|s| s.parse::<usize>().ok()).unwrap_or(ctx.scale(1200, 20_000));
     let mut cc_cfg = CaseCfg::cases(n).choices(8000);
     if std::env::var("VDESIGN_MINIMIZE").is_ok() {
         cc_cfg = cc_cfg.shrink_iters(0).timeout_s(3000);
